@@ -45,6 +45,8 @@ THEOREMS = [
     "Lena.C16.split_bo_never_raises",
     "Lena.C16.stopfill_escapes_buffer_input",
     "Lena.C16.split_stop_prefix",
+    "Lena.C16.runFillComputeX_ofEl",
+    "Lena.C16.run_stop_prefix",
     "Lena.C16.reset_only_element",
     "Lena.C16.reset_mid_block",
     "Lena.C16.reset_keeps_boundaries",
